@@ -26,6 +26,11 @@ ASSUMPTIONS = [
     "one observer: it pings each peer once per shuffled cycle of N-1 rounds) every interval sample is <= G, so mean <= G and "
     "std <= G/2, and phi reaches the threshold at the latest G + y*max(G/2, min_std=0.1 s) after the last heartbeat, y = the "
     "standard-normal quantile of 1-10^-threshold; deadline = crash + G (age of the last heartbeat) + that + 2 intervals",
+    "accuracy-slow widens 'well below the probe interval' to round trips of 52-90 % of the probe interval (one-way 26-45 %): still "
+    "below the probe interval, and the orphan-free protocol cancels its suspicion timer on the late ack because ack window (0.5) + "
+    "suspicion timeout (>= 0.5) >= 1 interval > round trip",
+    "gossip: injected messages are delivered straight to m0.handle_event (no network), nobody runs probe ticks, so the only way a "
+    "view changes is the update rule; a DEAD that was not caused by a 'dead' rumour in the same message cannot occur there",
     "crash = the engine's CrashNode (events to the member are dropped); in `flap` a restarted member calls start() again",
     "the implementation never raises an incarnation, so 'DEAD is not reported ALIVE again without a higher incarnation' is "
     "checked as: an observer that reported DEAD never reports anything else for that member afterwards",
@@ -152,15 +157,21 @@ class View:
 
 def build(case, *, lossy=False):
     from happysimulator.components.consensus.membership import MembershipProtocol
-    n = _int(case.get("n"), 3, 8, 3)
+    n = _int(case.get("n"), 3, 10, 3)
     interval_ms = _pick(INTERVALS_MS, case.get("interval"))
     interval = interval_ms / 1000
     susp = _pick(SUSP_FACTORS, case.get("susp")) * interval
     thr = _pick(THRESHOLDS, case.get("thr"))
     k = _int(case.get("k"), 0, 5, 3)
     unit = interval / 100
-    netc = {"delays": case.get("delays"), "seed": case.get("seed"), "loss": case.get("loss") if lossy else []}
-    sn = netsched.ScriptedNet(netc, unit=unit, default_delay=3, max_delay=10)
+    delays, dflt, dmax = case.get("delays"), 3, 10
+    if case.get("slowrtt"):
+        # accuracy-slow: every one-way delay in 26-45 % of the probe interval, so each probe is answered after the protocol's
+        # internal ack window (50 %) but before the next probe round (round trip 52-90 %)
+        delays = [26 + _int(x, 0, 10 ** 6, 0) % 20 for x in (delays or []) if isinstance(x, (int, float))] or [30]
+        dflt, dmax = 30, 45
+    netc = {"delays": delays, "seed": case.get("seed"), "loss": case.get("loss") if lossy else []}
+    sn = netsched.ScriptedNet(netc, unit=unit, default_delay=dflt, max_delay=dmax)
     nodes = [MembershipProtocol(f"m{i}", sn.network, probe_interval=interval, suspicion_timeout=susp,
                                 indirect_probe_count=k, phi_threshold=thr) for i in range(n)]
     for a in nodes:
@@ -240,9 +251,101 @@ def run_cluster(case, obl, *, crash=False, flap=False):
 
 
 # ------------------------------------------------------------------------------------------- accuracy
-def ex_accuracy(case):
-    r, view, p, x = run_cluster(case, "accuracy")
+def ex_accuracy(case, obl="accuracy"):
+    r, view, p, x = run_cluster(case, obl)
     r.nontrivial = x["rounds"] >= 20 and view.recoveries >= 1
+    return r
+
+
+def slow_strategy(tier):
+    """Healthy clusters whose round trip lies between the internal ack window and the probe interval."""
+    return st.fixed_dictionaries({
+        "n": st.integers(5, 10), "interval": st.integers(0, len(INTERVALS_MS) - 1), "susp": st.sampled_from([0, 1, 2, 3]),
+        "thr": st.integers(0, len(THRESHOLDS) - 1), "k": st.integers(0, 5), "rounds": st.integers(60, 120),
+        "shuffle": st.lists(st.integers(0, 999), max_size=40), "delays": st.lists(st.integers(0, 19), max_size=60),
+        "seed": st.integers(0, 2 ** 16), "slowrtt": st.just(True),
+    })
+
+
+# ------------------------------------------------------------------------------------------- gossip (incarnation rule)
+def gossip_strategy(tier):
+    up = st.fixed_dictionaries({"m": st.integers(1, 4), "s": st.sampled_from(["alive", "alive", "suspect", "dead"]),
+                                "inc": st.integers(0, 6)})
+    msg = st.fixed_dictionaries({"gap": st.integers(1, 50), "from": st.integers(1, 4),
+                                 "ups": st.lists(up, min_size=1, max_size=4, unique_by=lambda u: u["m"])})
+    return st.fixed_dictionaries({"n": st.integers(3, 5), "msgs": st.lists(msg, min_size=2, max_size=14),
+                                  "seed": st.integers(0, 2 ** 16)})
+
+
+def ex_gossip(case):
+    """One observer (m0) of an unstarted cluster receives MembershipPing messages whose piggybacked update lists
+    (alive/suspect/dead about the other members, incarnations 0-6, at most one update per member and message) and order
+    come from the case - the rumours a long-lived cluster with refuting members would deliver in any order."""
+    import happysimulator.components.consensus.membership as mem_mod
+    from happysimulator import Event, Instant, Simulation
+    obl = "gossip"
+    r = Result()
+    case = case if isinstance(case, dict) else {}
+    sn, nodes, p = build({"n": _int(case.get("n"), 3, 5, 3), "interval": 3, "susp": 4, "thr": 5, "k": 0, "seed": case.get("seed")})
+    harness.seed_globals(sn.seed)
+    obs, n = nodes[0], len(nodes)
+    sim = Simulation(entities=[sn.network, *nodes], end_time=Instant.from_seconds(5.0))
+    msgs = []
+    t = 0
+    for mm in (case.get("msgs") or [])[:40]:
+        if not isinstance(mm, dict):
+            continue
+        t += _int(mm.get("gap"), 1, 1000, 1)
+        src = nodes[1 + (_int(mm.get("from"), 1, 10 ** 6, 1) - 1) % (n - 1)].name
+        ups, seen = [], set()
+        for u in (mm.get("ups") or [])[:6]:
+            if not isinstance(u, dict):
+                continue
+            who = nodes[1 + (_int(u.get("m"), 1, 10 ** 6, 1) - 1) % (n - 1)].name
+            st_ = u.get("s") if u.get("s") in ("alive", "suspect", "dead") else "alive"
+            if who in seen:
+                continue                       # at most one update per member and message (keeps the judgement order-free)
+            seen.add(who)
+            ups.append({"member": who, "state": st_, "incarnation": _int(u.get("inc"), 0, 100, 0)})
+        msgs.append((t, src, ups))
+    state = {x.name: ALIVE for x in nodes[1:]}
+    dead_inc = {}
+    revived = [0]
+    for i, (tm, src, ups) in enumerate(msgs):
+        def deliver(e, src=src, ups=ups):
+            ev = Event(time=e.time, event_type="MembershipPing", target=obs, daemon=True,
+                       context={"metadata": {"source": src, "destination": obs.name, "from": src, "incarnation": 0,
+                                             "updates": [dict(u) for u in ups]}})
+            out = obs.handle_event(ev)
+            for x in nodes[1:]:
+                new = obs.get_member_state(x.name).name
+                old = state[x.name]
+                if new == old:
+                    continue
+                state[x.name] = new
+                mine = next((u for u in ups if u["member"] == x.name), None)
+                if new == DEAD:
+                    dead_inc[x.name] = mine["incarnation"] if mine and mine["state"] == "dead" else None
+                elif old == DEAD:
+                    d = dead_inc.get(x.name)
+                    ok = mine is not None and mine["state"] == "alive" and d is not None and mine["incarnation"] > d
+                    if ok:
+                        revived[0] += 1
+                    else:
+                        r.add(f"{P}/{obl}/dead-member-revived-without-higher-incarnation",
+                              f"m0 held {x.name} DEAD by a 'dead' rumour of incarnation {d}; the message from {src} with updates "
+                              f"{ups} made it {new}")
+            return out
+        sim.schedule(Event.once(time=Instant(tm * 10 ** 6), event_type="inject.ping", fn=deliver, daemon=True))
+    probe = harness.SimProbe(sim, max_per_instant=20000, max_events=20000, log=False)
+    rng = harness.RandomShim(sn.seed, [])
+    with sn.installed(mem_mod, rng=rng):
+        probe.run()
+    was_dead = bool(dead_inc)
+    r.nontrivial = was_dead and any(u["state"] == "alive" and u["incarnation"] > 0 for _, _, ups in msgs for u in ups)
+    r.labels.append("dead-rumour-applied" if was_dead else "no-dead")
+    if revived[0]:
+        r.labels.append("revived-by-higher-incarnation")
     return r
 
 
@@ -399,6 +502,17 @@ OBLIGATIONS = [
                RULE_CLUSTER + "nobody crashes; after every delivered event no member may report a peer DEAD (and a DEAD report must "
                "never be withdrawn). Non-trivial = >= 20 rounds and at least one "
                "SUSPECT episode that recovers"),
+    Obligation("accuracy-slow", slow_strategy, lambda c: ex_accuracy(c, "accuracy-slow"), {"quick": 160, "thorough": 6000},
+               "healthy clusters of 5-10 members running 60-120 rounds in which every one-way delay is 26-45 % of the probe interval: "
+               "each probe is answered after the protocol's internal ack window (50 %) but before the next probe round (round trip "
+               "52-90 %, still below the probe interval and below ack window + suspicion timeout), so the indirect-probe and "
+               "suspicion-timer path runs although nobody stopped; suspicion timeout 0.5-3 intervals; same clauses as `accuracy`"),
+    Obligation("gossip", gossip_strategy, ex_gossip, {"quick": 800, "thorough": 60000},
+               "incarnation rule of piggybacked updates, detached from timing: the observer m0 of an unstarted 3-5 member cluster is "
+               "handed 2-14 MembershipPing messages whose update lists (alive/suspect/dead about the other members, incarnations 0-6, "
+               "one update per member and message) and order come from the case; once m0 holds X DEAD through a 'dead' rumour of "
+               "incarnation d it may report X not-DEAD again only on a message carrying alive(X, i) with i > d. Non-trivial = a dead "
+               "rumour was applied and some alive rumour with incarnation > 0 was delivered"),
     Obligation("completeness", cluster_strategy(crash=True), ex_completeness, {"quick": 400, "thorough": 16000},
                RULE_CLUSTER + "one member is crashed for good (CrashNode) at a generated time in [0, 20 intervals] (inside the first "
                "round / mid-run / late); at the deadline computed from N, interval, delays and phi threshold (see assumptions) and at "
